@@ -104,6 +104,11 @@ class Prop:
                     k = rng.randrange(len(b) + 1)
                     m = rng.choice(toks)
                     add('ST', b[:k] + m + b[k:], 'user-type-mutated-' + conv)
+        # the rejected text is a type another type inherits from: the position of an inherited member refers to the text it was written in
+        for text in ['{\n  "k": 5 // {min: 9}\n}', '{\n\n\n  "pad": "' + 'x' * 60 + '",\n  "k": 5 // {min: 9}\n}', '{\n  "a": 1,\n  "s": "abc" // {maxLength: 1}\n}',
+                     '{\n  "n": [\n    1.5 // {type: "integer"}\n  ]\n}', '{\n  "m": @missing\n}', '{\n  "deep": {\n    "k": true // {type: "string"}\n  }\n}']:
+            for conv, t in samples.encodings(text):
+                add('SI', t.encode(), 'inherited-' + conv)
         # long lines: a line of more than 200 bytes is shortened in the quotation, wherever the line stands in the text
         for pad in (0, 1, 3, 30):
             for n in (150, 189, 190, 197, 198, 199, 250, 600):
